@@ -324,6 +324,7 @@ pub fn run(ctx: &Ctx) -> Report {
         st
     });
     total.merge(tw);
+    crate::fuzzrun::replay_policy_trees(&mut total, judge);
     // interaction triples: three leaf kinds under every operator skeleton
     let tr = crate::combo::run_triples(ctx.seed, &crate::combo::supported_kinds(), ctx.tier.pick(48, 3), judge, case_json);
     total.merge(tr);
